@@ -138,7 +138,7 @@ RULES = {
     'T_ctor_destructure': [_ctor_destructure],
     'T_ctor_futures': [_ctor_futures],
     'T_ctor_outputs': [_ctor_outputs],
-    'T_drop_prelude': [(r'fn __drop_inner\(\)\s*\{\s*\}', ''), (r'let this = __self\.project\(\);', ''), (r'\bthis\.', 'self.'),
+    'T_drop_prelude': [(r'fn __drop_inner\(\)\s*\{\s*\}', ''), (r'let this = __self\.project\(\);', ''), (r'\*this\.(\w+)', r'self.\1'), (r'\bthis\.', 'self.'),
                        (r'let states = self\.state;', ''), (r'let mut futures = self\.futures;', ''), (r'\bstates\[', 'self.state['),
                        (r'let futures =\s*unsafe\s*\{\s*futures\.as_mut\(\)\.get_unchecked_mut\(\)\s*\};', '')],
     'T_child_poll': [_child_poll],
